@@ -53,15 +53,20 @@ def generate(gen, tier):
         cfg = gen.cfg(pred=0)
         s = [A('structure'), cfg, t]
         cases.append({'lines': [op('accessors', s), op('paths', s)], 'o': {'cfg': render(cfg), 'tree': render(t)}})
+    # entry-class zoo: node classes and registration styles outside the modelled universe (implementation oracle only)
+    for _ in range(150 if tier == 'quick' else 4000):
+        cases.append({'lines': [], 'o': {'zoo': gen.rng.randrange(10**9)}})
     return cases
 
 
 def nontrivial(case):
-    return has_internal_node(parse(case['o']['tree']))
+    return 'zoo' in case['o'] or has_internal_node(parse(case['o']['tree']))
 
 
 def distribution(cases):
-    return tree_distribution(cases)
+    d = tree_distribution([c for c in cases if 'zoo' not in c['o']])
+    d['entry_class_zoo_cases'] = sum(1 for c in cases if 'zoo' in c['o'])
+    return d
 
 
 def literal_key(k):
@@ -69,12 +74,20 @@ def literal_key(k):
 
 
 def oracle(impl, o):
-    import optree
-    from optree import PyTreeAccessor
+    if 'zoo' in o:
+        return zoo_oracle(o)
     u = impl.u
-    fails = []
     tree = u.obj(parse(o['tree']))
     with in_cfg(impl, o['cfg']) as kw:
+        return check_tree(tree, kw)
+
+
+def check_tree(tree, kw):
+    """the statement of C04 evaluated on one tree"""
+    import optree
+    from optree import PyTreeAccessor
+    fails = []
+    if True:
         try:
             accs, leaves, spec = optree.tree_flatten_with_accessor(tree, **kw)
             paths = optree.tree_paths(tree, **kw)
@@ -160,6 +173,135 @@ def oracle(impl, o):
                         fails.append({'key': 'paths-prefix-free', 'what': 'a path is a proper prefix of another'})
                         break
     return fails
+
+
+_ZOO = {}
+
+
+def zoo_classes():
+    """privately registered node classes, one per (path-entry class x registration style) the generated universe lacks:
+    stdlib dataclasses registered by position (AutoEntry -> DataclassEntry with integer entries) whose init=False fields sit
+    before / between / after the init fields or are inherited, dataclasses registered with field-name entries, Mapping /
+    Sequence sub-classes and namedtuple / struct-sequence look-alikes under AutoEntry, explicit GetAttr / GetItem entries"""
+    if _ZOO:
+        return _ZOO
+    import collections.abc
+    import dataclasses as std
+    import optree
+    from optree.accessor import DataclassEntry, GetAttrEntry, GetItemEntry
+    NS = 'c04zoo'
+    classes = []
+
+    def reg_positional(cls, names):
+        optree.register_pytree_node(cls, lambda o: ([getattr(o, n) for n in names], None),
+                                    lambda md, ch: cls(**dict(zip(names, ch))), namespace=NS)
+
+    def reg_named(cls, names, entry_type):
+        optree.register_pytree_node(cls, lambda o: ([getattr(o, n) for n in names], None, tuple(names)),
+                                    lambda md, ch: cls(**dict(zip(names, ch))), path_entry_type=entry_type, namespace=NS)
+
+    layouts = {
+        'DcPlain': [('a', True), ('b', True), ('c', True)],
+        'DcSkipFirst': [('tag', False), ('a', True), ('b', True)],
+        'DcSkipMiddle': [('a', True), ('tag', False), ('b', True), ('tag2', False), ('c', True)],
+        'DcSkipLast': [('a', True), ('b', True), ('tag', False)],
+    }
+    for name, fields in layouts.items():
+        ns = {'__annotations__': {n: object for n, _ in fields}}
+        for n, init in fields:
+            if not init:
+                ns[n] = std.field(init=False, default='meta')
+        cls = std.dataclass(type(name, (), ns))
+        init_names = [n for n, i in fields if i]
+        reg_positional(cls, init_names)
+        classes.append((cls, init_names))
+        cls2 = std.dataclass(type(name + 'Named', (), dict(ns)))
+        reg_named(cls2, init_names, DataclassEntry)
+        classes.append((cls2, init_names))
+    base = std.dataclass(type('DcBase', (), {'__annotations__': {'tag': object, 'x': object},
+                                             'tag': std.field(init=False, default='meta')}))
+    derived = std.dataclass(type('DcDerived', (base,), {'__annotations__': {'y': object}}))
+    reg_positional(derived, ['x', 'y'])
+    classes.append((derived, ['x', 'y']))
+
+    class AttrBox:
+        def __init__(self, p, q):
+            self.p, self.q = p, q
+    reg_named(AttrBox, ['p', 'q'], GetAttrEntry)
+    classes.append((AttrBox, ['p', 'q']))
+
+    class ItemBox:
+        def __init__(self, p, q):
+            self.d = {'p': p, 'q': q}
+
+        def __getitem__(self, k):
+            return self.d[k]
+    optree.register_pytree_node(ItemBox, lambda o: ([o.d['p'], o.d['q']], None, ('p', 'q')),
+                                lambda md, ch: ItemBox(*ch), path_entry_type=GetItemEntry, namespace=NS)
+    classes.append((ItemBox, ['p', 'q']))
+
+    class MyMap(collections.abc.Mapping):
+        def __init__(self, **kw):
+            self.d = dict(kw)
+
+        def __getitem__(self, k):
+            return self.d[k]
+
+        def __iter__(self):
+            return iter(self.d)
+
+        def __len__(self):
+            return len(self.d)
+    optree.register_pytree_node(MyMap, lambda o: (list(o.d.values()), None, tuple(o.d)),
+                                lambda md, ch: MyMap(), namespace=NS)
+    classes.append((MyMap, ['k1', 'k2']))
+
+    class MySeq(collections.abc.Sequence):
+        def __init__(self, *xs, **kw):
+            self.xs = list(xs) + list(kw.values())
+
+        def __getitem__(self, i):
+            return self.xs[i]
+
+        def __len__(self):
+            return len(self.xs)
+    optree.register_pytree_node(MySeq, lambda o: (list(o.xs), None), lambda md, ch: MySeq(*ch), namespace=NS)
+    classes.append((MySeq, ['s0', 's1', 's2']))
+    NT = collections.namedtuple('ZooNT', ['u', 'v'])
+    optree.register_pytree_node(NT, lambda o: (list(o), None), lambda md, ch: NT(*ch), namespace=NS)
+    classes.append((NT, ['u', 'v']))
+    _ZOO.update({'ns': NS, 'classes': classes})
+    return _ZOO
+
+
+def zoo_oracle(o):
+    import collections
+    import random
+    zoo = zoo_classes()
+    rng = random.Random(o['zoo'])
+
+    class Leaf:
+        pass
+
+    def inst(depth):
+        cls, names = rng.choice(zoo['classes'])
+        return cls(**{n: sub(depth - 1) for n in names})
+
+    def sub(depth):
+        c = rng.random()
+        if depth <= 0 or c < 0.3:
+            return Leaf()
+        if c < 0.6:
+            return inst(depth)
+        if c < 0.7:
+            return [sub(depth - 1), inst(depth - 1)]
+        if c < 0.8:
+            return {rng.choice([1, 'k', (1, 2), 2.5]): inst(depth - 1), 'z': sub(depth - 1)}
+        if c < 0.9:
+            return collections.defaultdict(list, {'q': collections.deque([inst(depth - 1), sub(depth - 1)], maxlen=3)})
+        return collections.OrderedDict([(rng.choice([0, 'o']), inst(depth - 1))])
+    tree = inst(2) if rng.random() < 0.5 else sub(3)
+    return check_tree(tree, {'namespace': zoo['ns'], 'none_is_leaf': rng.random() < 0.3})
 
 
 def _hashable(e):
